@@ -49,7 +49,10 @@ type zoneGen struct {
 	ttl func() uint32
 }
 
-func (g *zoneGen) ip4() net.IP { g.n++; return net.IP{10, byte(g.z.Version), byte(g.n >> 8), byte(g.n)} }
+func (g *zoneGen) ip4() net.IP {
+	g.n++
+	return net.IP{10, byte(g.z.Version), byte(g.n >> 8), byte(g.n)}
+}
 func (g *zoneGen) ip6() net.IP {
 	g.n++
 	return net.IP{0x20, 1, 0xd, 0xb8, 0, 0, 0, 0, 0, 0, 0, byte(g.z.Version), 0, 0, byte(g.n >> 8), byte(g.n)}
